@@ -26,9 +26,18 @@ _LOCK = threading.Condition()
 _ARRIVED: dict = {}
 
 
+EXEC = {"n": 0}          # executions of enc / encs in THIS process (threads included) since reset()
+
+
 def reset():
     with _LOCK:
         _ARRIVED.clear()
+        EXEC["n"] = 0
+
+
+def _count():
+    with _LOCK:
+        EXEC["n"] += 1
 
 
 def _arrive(name: str):
@@ -92,6 +101,7 @@ def decode(code: int):
 
 
 def enc(detector, p0=0.0, p1=0.0, p2=0.0, nslots=1, sleep_scale=0.0, sleep_mult=1, slow_sum=None):
+    _count()
     vals = [p0, p1, p2][: int(nslots)]
     code, total = encode(vals)
     mem = getattr(detector, "_c07_mem", 0)
@@ -123,6 +133,7 @@ def encs(detector, ident=0, slots="", a=0.0, b=0.0, c=0.0, d=0.0, sleep_scale=0.
     model instances).  `slots` = "a:0,c:2": the value RECEIVED for argument `a` is written (as the injective
     code of `encode([value])`) into pixel[0, 0], the one for `c` into pixel[0, 2]; the other columns are left
     as they are.  signal[0, slot] = how many runs had executed THIS instance on the detector object before."""
+    _count()
     got = dict(a=a, b=b, c=c, d=d)
     geo = detector.geometry
     try:
